@@ -17,10 +17,10 @@ def plan(prop, tier, seed, t0):
              args=["--zero", "--names", "--phases", "--enum", "3,1", "--enum", "2,2", "--enum", "1,3" if q else "2,3,small",
                    "--stride", 3 if q else 1] + ([] if q else ["--enum", "1,3", "--enum", "3,2"]), **T),
         # seeded random circuits, 1..4 qubits, <= 10 gates, phases k/d with d in 1..=16; circuits with pp / measure_r / measure_d
-        dict(name="rand", engine="qasm", args=["--random", 1500 if q else 20000, "--outside", 200 if q else 2500], **T),
+        dict(name="rand", engine="qasm", args=["--random", 1500 if q else 60000, "--outside", 200 if q else 6000], **T),
         # parse direction: systematic program families (39 register shapes x 3 declaration layouts, 31 unsupported statements x
         # 4 positions, every phase k/d in 9 spellings, statements beyond the property) and seeded random programs
-        dict(name="progs", engine="qasm", args=["--enum-progs", "--progs", 1500 if q else 20000], **T),
+        dict(name="progs", engine="qasm", args=["--enum-progs", "--progs", 1500 if q else 60000], **T),
     ]
     return run_plan(prop, tier, seed, t0, mcs, traces, "model_checking", COMMON_ASSUME + [
                         "texts are abstracted to programs (registers, statements, parameters as rationals); the harness renders a program to "
